@@ -62,12 +62,20 @@ func runScript(sc scriptIn) scriptResult {
 	// act performs one stimulus without waiting for its consequences; applicable=false: the gate it wants to open is
 	// not closed (yet)
 	act := func(st string) (applicable bool) {
-		switch st {
-		case "m":
+		if len(st) >= 1 && st[0] == 'm' { // "m<k>": a manifest whose content is k; "m": a content not used before
 			nman++
-			if err := w.pubManifest(nman); err != nil {
+			content := nman
+			if len(st) > 1 {
+				if _, err := fmt.Sscanf(st[1:], "%d", &content); err != nil {
+					return false
+				}
+			}
+			if err := w.pubManifest(content); err != nil {
 				status = "stuck: publish: " + err.Error()
 			}
+			return true
+		}
+		switch st {
 		case "c":
 			if err := w.pubClosed(); err != nil {
 				status = "stuck: publish: " + err.Error()
@@ -211,9 +219,14 @@ func runFree(id int, seed int64) scriptResult {
 			time.Sleep(time.Duration(r.Intn(6000)) * time.Microsecond)
 		}
 	}
+	// manifests are values: a later one may equal an earlier one (A-B-A, A-A, ...)
+	contents := make([]int, nm)
+	for i := range contents {
+		contents[i] = 1 + rng.Intn(3)
+	}
 	var descr []string
-	descr = append(descr, fmt.Sprintf("free seed=%d nm=%d closeAt=%d shutAt=%d hnFail=%v pre=%v derr=%.2f terr=%.2f delay=%dus",
-		seed, nm, closeAt, shutAt, o.hnFail, o.preexisting, o.plan.deployErrP, o.plan.tdErrP, o.plan.maxDelayUs))
+	descr = append(descr, fmt.Sprintf("free contents=%v seed=%d nm=%d closeAt=%d shutAt=%d hnFail=%v pre=%v derr=%.2f terr=%.2f delay=%dus",
+		contents, seed, nm, closeAt, shutAt, o.hnFail, o.preexisting, o.plan.deployErrP, o.plan.tdErrP, o.plan.maxDelayUs))
 	var wg sync.WaitGroup
 	tick := make([]chan struct{}, nm+2)
 	for i := range tick {
@@ -228,7 +241,7 @@ func runFree(id int, seed int64) scriptResult {
 			close(tick[i])
 			if i < nm {
 				pause(r1)
-				_ = w.pubManifest(i + 1)
+				_ = w.pubManifest(contents[i])
 			}
 		}
 	}()
